@@ -72,7 +72,7 @@ CLAIMS = {
        'sequence number, wrong configuration mode, duplicate route are refusals).',
   design_ref='DESIGN.md section 4, C08',
   note='Trusted: as C01; strictness rules of Cisco/Device.v are the property text. PAN-OS/NSX executability is under C03/C04.',
-  extra_note=' ASA crypto commands are executed on the strict model Cisco/Vpn.v. PAN-OS and NSX: every command / request of the scripts of C03 / C04 is executed on the strict models Panos/Device.v and Nsx/Device.v; a refused one is reported here (known finding F-C08-1 = F-C03-2).',
+  extra_note=' C08_ios_acl_every_prefix_accepted: for the IOS numbering core every prefix of the numbered commands is accepted for EVERY edit script, moves included (Cisco/IosAclMoves.v, IosAclResume.v). ASA crypto commands are executed on the strict model Cisco/Vpn.v. PAN-OS and NSX: every command / request of the scripts of C03 / C04 is executed on the strict models Panos/Device.v and Nsx/Device.v; a refused one is reported here (known finding F-C08-1 = F-C03-2).',
   technique='Coq proof for the ASA line core + strict Coq device executing real scripts'),
  'C10': dict(
   text='C10_asa_acl_resume_partial: after any prefix of the ASA line script the device list is again duplicate-free, and every valid edit '
@@ -80,10 +80,12 @@ CLAIMS = {
        'rendered by the Coq device, the real tool is run again on it, its script is executed on the Coq device, and a third compare must be silent.',
   design_ref='DESIGN.md section 4, C10',
   note='Trusted: as C01. Cuts between the halves of a joined command are covered by C10_device_states_stay_wellformed for the core only.',
-  extra_note=' ASA crypto: every prefix state of the crypto script is resumed on Cisco/Vpn.v (cuts inside the sub-mode block of an ipsec-proposal included); known finding F-C10-1 (entry left without peer). NSX and PAN-OS: every prefix state of the request / command sequence is computed by Nsx/Device.v / Panos/Device.v, rendered, compared again by the real tool, the resumed script executed on the model (must be accepted, reach the target, leave no generated object behind) and a third compare must be silent.',
+  extra_note=' C10_ios_acl_resume: for the IOS numbering core the ACL after any prefix of the script again has no line twice, and every run from it (every edit script to the same target) is accepted and ends in an ACL that filters like the target. ASA crypto: every prefix state of the crypto script is resumed on Cisco/Vpn.v (cuts inside the sub-mode block of an ipsec-proposal included); known finding F-C10-1 (entry left without peer). NSX and PAN-OS: every prefix state of the request / command sequence is computed by Nsx/Device.v / Panos/Device.v, rendered, compared again by the real tool, the resumed script executed on the model (must be accepted, reach the target, leave no generated object behind) and a third compare must be silent.',
   technique='Coq resumability theorem for the line core + prefix-state replay of real scripts through the Coq device'),
  'C14': dict(
-  text='C14_linux_routes_covered_stepwise: Coq theorem (all route lists, every prefix). C14_acl_insert_then_delete_safe_partial: Coq theorem '
+  text='C14_linux_routes_covered_stepwise: Coq theorem (all route lists, every prefix). C14_asa_move_free_script_safe_at_every_step and '
+       'C14_ios_move_free_script_safe_at_every_step: for EVERY move-free edit script of the ASA and of the IOS model, after any number of its commands '
+       'every packet on which old and new ACL agree keeps that verdict, for every first-match semantics. C14_acl_insert_then_delete_safe_partial: Coq theorem '
        'for every first-match semantics (any packet type, matcher, action, default): an intermediate ACL in which the new lines are inserted '
        'top-down or the old lines deleted bottom-up gives every packet on which old and new ACL agree that same verdict; the shape is '
        'evaluated on every intermediate ACL of the implementation\'s move-free ASA scripts. ACL half in general: after every command of the real script the '
@@ -93,7 +95,8 @@ CLAIMS = {
   design_ref='DESIGN.md section 4, C14',
   note='Trusted: Coq kernel; abstract matchers (one pseudo-random packet set per entry body); IOS semantics "an ACL without entries permits '
        'everything". The general stepwise theorem is refuted for the current algorithm when lines are moved (see known findings); proved: the '
-       'route half and the ACL half for scripts without moves (insert top-down, delete bottom-up), the latter tied by the shape check.',
+       'route half and the ACL half for all scripts without moves of both models (ASA: Cisco/AsaStepSafe.v, IOS: Cisco/IosStepSafe.v); the models are tied '
+       'to the implementation by the exact comparison of commands and, for ASA, additionally by the shape check of every intermediate ACL.',
   technique='Coq theorems (route coverage at every prefix; insert-then-delete safety for every first-match semantics) + shape check and per-step verdict evaluation of real scripts in Coq with known-finding predicates'),
  'C06': dict(
   text='In the dialogue model a wrong hostname / non-active HA state is junk at an inspected request and a missing marker leaves a plan '
